@@ -171,9 +171,12 @@ fn variants_of(origin: &str, text: &str, pairs: bool, out: &mut Vec<Case>) {
     let desc = format!("{label}:{}|{}", if i == 0 { "BOF".to_string() } else { tok_class(prev) }, tok_class(toks.get(i)));
     gaps.push((off, desc));
   }
+  // bases written for the layout engine also get multi-word comments (a line comment can then be
+  // re-flowed, a single word cannot)
+  let multi_word = origin.starts_with("inline overlong");
   for (gi, (off, desc)) in gaps.iter().enumerate() {
     for (k, open, close) in KINDS {
-      let c = format!(" {open} c{gi}x {close} ");
+      let c = if multi_word { format!(" {open} c{gi}x explains the next line {close} ") } else { format!(" {open} c{gi}x {close} ") };
       let mut t = String::with_capacity(text.len() + c.len());
       t.push_str(&text[..*off]);
       t.push_str(&c);
@@ -233,6 +236,16 @@ fn main() {
   bases.push((
     "inline repeated-imports".to_string(),
     "import { A, B } from Lib.Util\nimport { C } from Lib.Other\nimport { D } from Lib.Util\nimport { E, F } from Lib.Util\nimport { G } from Lib.Other\n\nclass Main {\n  function main(): unit = {}\n}\n".to_string(),
+  ));
+  // lines that cannot fit into the width under any layout, after ordinary statements
+  let long = "x".repeat(130);
+  bases.push((
+    "inline overlong-string-line".to_string(),
+    format!("class Main {{\n  function f(): Str = {{\n    let a = 1;\n    let banner = \"{long}\";\n    let b = a + 1;\n    banner\n  }}\n\n  function g(): int = 2\n}}\n"),
+  ));
+  bases.push((
+    "inline overlong-identifier-chain".to_string(),
+    format!("class Main {{\n  function f(): int = {{\n    let a = 1;\n    let b = {}.{}.{};\n    a\n  }}\n}}\n", "y".repeat(50), "z".repeat(50), "w".repeat(50)),
   ));
   bases.push((
     "inline unsorted-imports".to_string(),
